@@ -297,6 +297,23 @@ pub fn gen_value(s: &Value, comps: &Map<String, Value>, r: &mut Rng, site: Site,
         }
     }
     match m.get("type").and_then(|t| t.as_str()) {
+        Some("string") if m.get("format").and_then(|f| f.as_str()) == Some("uuid") => {
+            // RFC 4122 text form, hexadecimal digits of either case
+            let mut t = String::new();
+            for i in 0..32 {
+                if i == 8 || i == 12 || i == 16 || i == 20 {
+                    t.push('-');
+                }
+                let d = match r.below(4) {
+                    0 => 0,
+                    1 => 15,
+                    _ => r.below(16),
+                };
+                let c = std::char::from_digit(d as u32, 16).unwrap();
+                t.push(if r.chance(1, 3) { c.to_ascii_uppercase() } else { c });
+            }
+            json!(t)
+        }
         Some("string") => {
             let minl = m.get("minLength").and_then(|x| x.as_u64());
             let maxl = m.get("maxLength").and_then(|x| x.as_u64());
